@@ -46,7 +46,8 @@ ASSUMPTIONS = ['record = one SSH packet (asserted by the tap)',
                'error class are judged']
 REQUIRED = ['tampers_applied', 'prefix_exact_checked', 'error_class_checked',
             'flip_cases', 'trunc_cases', 'reorder_cases', 'stalls_resolved',
-            'rekey_cases']
+            'rekey_cases', 'paused_receivers', 'late_readers',
+            'session_end_checked']
 BUDGET_S = {'quick': 300, 'thorough': 3400}
 CASE_TIMEOUT_S = 40
 
@@ -105,6 +106,30 @@ def gen_cases(tier, seed):
                       'aead': False, 'cmp': 'none', 'dir': d, 'index': j,
                       'op': list(op), 'chunk': 'all', 'big': False,
                       'cseed': rng.randrange(1 << 30)})
+    # how the receiving application consumes: callbacks with reading paused
+    # (a backlog sits in the channel when the alteration is detected) or the
+    # stream API with nobody blocked in read() at that moment
+    nrx = 160 if tier == 'quick' else 3000
+    rsuites = [('aes128-ctr', 'hmac-sha2-256', False),
+               ('aes128-gcm@openssh.com', 'hmac-sha1', True),
+               ('chacha20-poly1305@openssh.com', 'hmac-sha1', True),
+               ('aes256-cbc', 'hmac-sha1-96', False)]
+    for i in range(nrx):
+        e, m, a = rsuites[i % len(rsuites)]
+        api = ['callback_paused', 'stream_late'][i % 2]
+        cases.append({'enc': e, 'mac': m, 'aead': a,
+                      'cmp': rng.choice(['none', 'none', 'zlib@openssh.com']),
+                      'dir': S2C if api == 'stream_late' else
+                      rng.choice([C2S, S2C]),
+                      'index': rng.choice([3, 8, 15, 30]),
+                      'rx_api': api,
+                      'op': list(rng.choice([('flip', 'body'), ('flip', 'tagN'),
+                                             ('flip', 'pad'), ('dup', ''),
+                                             ('insert', ''),
+                                             ('splice_other', '')])),
+                      'chunk': rng.choice(['all', 'record', 'random']),
+                      'big': False, 'cseed': rng.randrange(1 << 30)})
+
     # tampering while a re-key is in progress: the record right after the
     # k-th KEXINIT of that direction (it usually travels in the same segment)
     suites = [('aes128-ctr', 'hmac-sha2-256', False),
@@ -134,7 +159,8 @@ def gen_cases(tier, seed):
 def signature(case):
     parts = (case['enc'], case['mac'] if not case['aead'] else '-',
              case['cmp'], case['dir'], case['index'], tuple(case['op']),
-             case.get('rekey'), case['chunk'] if case.get('rekey') else '')
+             case.get('rekey'), case['chunk'] if case.get('rekey') else '',
+             case.get('rx_api'), case['chunk'] if case.get('rx_api') else '')
     return hashlib.sha1(repr(parts).encode()).hexdigest()[:16]
 
 
@@ -297,6 +323,8 @@ def run_case(case):
         sizes[5] = 32768
     applied = {}
 
+    rx_api = case.get('rx_api', 'callback')
+
     async def main(loop):
         log = apps.EventLog()
         sessions = []
@@ -304,7 +332,9 @@ def run_case(case):
 
         class Srv(apps.RecServer):
             def session_requested(self):
-                s = apps.RecServerSession(log, 's')
+                s = apps.RecServerSession(
+                    log, 's', [(2, None)] if rx_api == 'callback_paused'
+                    and case['dir'] == C2S else None)
                 sessions.append(s)
                 return self.conn.create_server_channel(encoding=None), s
 
@@ -355,18 +385,28 @@ def run_case(case):
                 async def scenario():
                     conn = await env.connect(client_factory=mk_cli, **calgs)
                     state['conn'] = conn
-                    chan, cs = await conn.create_session(
-                        lambda: apps.RecClientSession(log, 'c'), 'x',
-                        encoding=None)
+                    if rx_api == 'stream_late':
+                        # stream API; nobody reads while the session runs
+                        proc = await conn.create_process('x', encoding=None)
+                        chan = proc.channel
+                        cs = apps.RecClientSession(log, 'c')
+                        state['proc'] = proc
+                    else:
+                        chan, cs = await conn.create_session(
+                            lambda: apps.RecClientSession(
+                                log, 'c', [(2, None)]
+                                if rx_api == 'callback_paused' and
+                                case['dir'] == S2C else None), 'x',
+                            encoding=None)
                     state['cs'] = cs
                     st = asyncio.ensure_future(server(sessions[0]))
                     env.san.harness_tasks.add(st)
                     for i, n in enumerate(sizes):
-                        if cs.lost:
+                        if cs.lost or chan.is_closing():
                             break
                         chan.write(apps.stream_bytes(('i', i), n))
                         await asyncio.sleep(0)
-                    if not cs.lost:
+                    if not cs.lost and not chan.is_closing():
                         chan.write_eof()
                     await chan.wait_closed()
                     await asyncio.gather(st, return_exceptions=True)
@@ -376,9 +416,10 @@ def run_case(case):
                 await env.settle()
                 stalled = False
                 link = env.wire.links[0]
-                if not main_t.done() or not (link.client.is_closed() and
-                                             link.server.is_closed()):
-                    if tm.applied is not None:
+                conn_up = not (link.client.is_closed() and
+                               link.server.is_closed())
+                if conn_up or (not main_t.done() and rx_api == 'callback'):
+                    if tm.applied is not None and conn_up:
                         # receiver is waiting for bytes that never come
                         stalled = True
                     link.cut('both')
@@ -394,6 +435,42 @@ def run_case(case):
                 ss = sessions[0] if sessions else apps.RecServerSession(
                     log, 'none')
                 cs = state['cs'] or apps.RecClientSession(log, 'none')
+
+                stream_end = {}
+                if rx_api == 'callback_paused':
+                    # the application comes back to its paused session only
+                    # now, after the connection is gone
+                    rxs = ss if case['dir'] == C2S else cs
+                    mon['paused_receivers'] += 1
+                    try:
+                        if rxs.chan is not None:
+                            rxs.chan.resume_reading()
+                    except Exception:       # pylint: disable=broad-except
+                        pass
+                    await env.settle()
+                elif rx_api == 'stream_late' and state.get('proc'):
+                    # ... or starts reading only now
+                    proc = state['proc']
+                    mon['late_readers'] += 1
+                    for name, rd, dt in (('stdout', proc.stdout, None),
+                                         ('stderr', proc.stderr, 1)):
+                        buf = bytearray()
+                        end = 'eof'
+                        for _ in range(10000):
+                            try:
+                                d_ = await asyncio.wait_for(rd.read(65536),
+                                                            30)
+                            except asyncio.TimeoutError:
+                                end = 'timeout'
+                                break
+                            except Exception as exc_:   # noqa
+                                end = type(exc_).__name__
+                                break
+                            if not d_:
+                                break
+                            buf += d_
+                        cs.recv[dt] = [bytes(buf)]
+                        stream_end[name] = end
 
                 applied.update(tm.applied or {})
                 if tm.applied is None:
@@ -435,7 +512,7 @@ def run_case(case):
                                           f'{want} were carried by records '
                                           f'before the altered one; '
                                           f'{tm.applied}'})
-                        elif len(got) < want:
+                        elif len(got) < want and rx_api == 'callback':
                             viol.append({
                                 'mechanism': 'data_before_tamper_lost',
                                 'detail': f'{len(got)} bytes delivered, '
@@ -451,6 +528,42 @@ def run_case(case):
                             not exp['exit']:
                         viol.append({'mechanism': 'exit_after_tamper',
                                      'detail': str(tm.applied)})
+
+                # the receiving *session* must learn that the stream did not
+                # end cleanly, whenever it gets round to looking
+                clean_end0 = exp is not None and exp['close'] > 0
+                legit_loss = stalled or op in ('trunc', 'drop', 'swap')
+                if rx_api == 'callback_paused' and not clean_end0 and \
+                        'connection_made' in rx.order:
+                    mon['session_end_checked'] += 1
+                    sname = type(rx.lost_exc).__name__ \
+                        if rx.lost_exc is not None else None
+                    if rx.lost != 1:
+                        viol.append({'mechanism': 'session_not_told',
+                                     'detail': f'session connection_lost x'
+                                               f'{rx.lost}; {tm.applied}'})
+                    elif sname is None or (sname == 'ConnectionLost' and
+                                           not legit_loss):
+                        viol.append({
+                            'mechanism': 'session_told_clean_end_after_tamper',
+                            'detail': f'paused session resumed later got '
+                                      f'connection_lost({rx.lost_exc!r}); '
+                                      f'{tm.applied}'})
+                if rx_api == 'stream_late' and exp is not None:
+                    for name, end in stream_end.items():
+                        mon['session_end_checked'] += 1
+                        if end == 'timeout':
+                            viol.append({'mechanism': 'late_read_hangs',
+                                         'detail': f'{name}; {tm.applied}'})
+                        elif end == 'eof' and not exp['eof'] and \
+                                not clean_end0:
+                            viol.append({
+                                'mechanism': 'clean_eof_after_tamper',
+                                'detail': f'{name}: a reader which started '
+                                          f'after the alteration was '
+                                          f'detected got the intact bytes '
+                                          f'and then a clean EOF; '
+                                          f'{tm.applied}'})
 
                 # the receiver's owner must be told about an error
                 mon['error_class_checked'] += 1
